@@ -25,8 +25,8 @@ class Function:
     #
     # Mappings of tasks ids <-> task names
     #
-    unique_task2name: ClassVar[dict[Task, set[str]]] = {}
-    unique_name2task: ClassVar[dict[str, Task]] = {}
+    unique_task2name: ClassVar[dict[Task, set[tuple[str, str]]]] = {}
+    unique_name2task: ClassVar[dict[tuple[str, str], Task]] = {}
 
     #
     # Mappings of task id to hass contexts
@@ -230,7 +230,8 @@ class Function:
 
         async def task_unique(name, kill_me=False):
             """Implement task.unique()."""
-            name = f"{ctx.get_global_ctx_name()}.{name}"
+            # keyed by (context, name): names of different contexts never meet, whatever dots they contain
+            name = (ctx.get_global_ctx_name(), name)
             curr_task = asyncio.current_task()
             if name in cls.unique_name2task:
                 task = cls.unique_name2task[name]
@@ -283,15 +284,15 @@ class Function:
 
         def user_task_name2id(name=None):
             """Implement task.name2id()."""
-            prefix = f"{ctx.get_global_ctx_name()}."
+            ctx_name = ctx.get_global_ctx_name()
             if name is None:
                 ret = {}
                 for task_name, task_id in cls.unique_name2task.items():
-                    if task_name.startswith(prefix):
-                        ret[task_name[len(prefix) :]] = task_id
+                    if task_name[0] == ctx_name:
+                        ret[task_name[1]] = task_id
                 return ret
-            if prefix + name in cls.unique_name2task:
-                return cls.unique_name2task[prefix + name]
+            if (ctx_name, name) in cls.unique_name2task:
+                return cls.unique_name2task[(ctx_name, name)]
             raise NameError(f"task name '{name}' is unknown")
 
         return user_task_name2id
@@ -309,8 +310,7 @@ class Function:
     @classmethod
     def unique_name_used(cls, ctx, name):
         """Return whether the current unique name is in use."""
-        name = f"{ctx.get_global_ctx_name()}.{name}"
-        return name in cls.unique_name2task
+        return (ctx.get_global_ctx_name(), name) in cls.unique_name2task
 
     @classmethod
     def service_has_service(cls, domain, name):
